@@ -1,3 +1,226 @@
 // Kani harnesses mounted into crates/ripd/src/continuities.rs (cfg(kani) only).
-#![allow(unused_imports, dead_code)]
+#![allow(unused_imports, dead_code, unused_variables, unused_mut)]
 use super::*;
+include!("/verif/harness/common.rs");
+use crate::continuity_stream_cache::{ContinuityWindow, TailScan};
+
+// ---------------------------------------------------------------------------------------------------------
+// store construction (struct literal: private fields are visible to this child module; no I/O constructor)
+// ---------------------------------------------------------------------------------------------------------
+fn kani_store() -> &'static ContinuityStore {
+    let (sender, receiver) = broadcast::channel(1);
+    core::mem::forget(receiver);
+    let store = ContinuityStore {
+        data_dir: PathBuf::new(),
+        workspace_root: PathBuf::new(),
+        event_log: Arc::new(rip_log::verif_kani::kani_event_log()),
+        stream_cache: crate::continuity_stream_cache::verif_kani::kani_cache(),
+        sender,
+        index: Mutex::new(ContinuityIndexV1::default()),
+        next_seq: Mutex::new(HashMap::new()),
+    };
+    Box::leak(Box::new(store))
+}
+
+fn stub_get_some(_this: &ContinuityStore, _id: &str) -> Option<ContinuityMeta> {
+    Some(ContinuityMeta {
+        continuity_id: String::new(),
+        created_at_ms: 0,
+        title: None,
+        archived: false,
+    })
+}
+
+// ---------------------------------------------------------------------------------------------------------
+// C04(a): every tail-window loop terminates whatever the cache layer answers.
+// The scan primitive is ARBITRARY at every iteration: Ok(None) / Err / Ok(Some{complete: nondet}). The returned
+// tail carries no frames: "the searched frame is not in the window" is the worst case for termination (a hit
+// only ends the loops sooner). A thread longer than every window is this stub answering complete=false forever.
+// Oracle: CBMC's unwinding assertion with the bound derived from the loop constants
+// (256 KiB doubling to 8 MiB = 6 windows; unwind 8).
+// ---------------------------------------------------------------------------------------------------------
+// The answer KIND is fixed per harness (shape): a stub that chooses between Ok(None)/Err/Ok(Some) symbolically (or
+// through a `static mut` counter, which CBMC does not constant-fold) makes CBMC merge the return values, the
+// discriminant and the tail's Vec become symbolic and the drop glue of garbage frames explodes (measured: > 20 min).
+// Within a shape the `complete` flag of every answered window is symbolic. "late" shapes answer "not complete" for
+// the small windows and switch to Ok(None) once the requested window (a concrete argument in every unrolled
+// iteration) reaches 1 MiB. Err(io::Error) answers are OUTSIDE the claim: dropping an io::Error (bit-packed tagged
+// pointer, boxed dyn Error arm) is not constant-folded by CBMC and the harness does not finish (measured > 300 s).
+fn stub_scan_some(_this: &ContinuityStreamCache, _id: &str, _max_events: usize, max_bytes: usize) -> io::Result<Option<TailScan>> {
+    assert!(max_bytes >= 16 * 1024 && max_bytes <= 256 * 1024 * 1024, "tail window outside the documented ladder");
+    let complete: bool = kani::any();
+    kani::cover!(!complete && max_bytes >= 8 * 1024 * 1024, "cache still answers 'window not complete' at the largest window");
+    Ok(Some(TailScan { events: Vec::new(), complete }))
+}
+fn stub_scan_none(_this: &ContinuityStreamCache, _id: &str, _max_events: usize, _max_bytes: usize) -> io::Result<Option<TailScan>> {
+    Ok(None)
+}
+fn stub_scan_err(_this: &ContinuityStreamCache, _id: &str, _max_events: usize, _max_bytes: usize) -> io::Result<Option<TailScan>> {
+    Err(io::Error::from(io::ErrorKind::Other))
+}
+fn stub_scan_none_late(_this: &ContinuityStreamCache, _id: &str, _max_events: usize, max_bytes: usize) -> io::Result<Option<TailScan>> {
+    if max_bytes >= 1024 * 1024 {
+        return Ok(None);
+    }
+    Ok(Some(TailScan { events: Vec::new(), complete: false }))
+}
+fn stub_scan_err_late(_this: &ContinuityStreamCache, _id: &str, _max_events: usize, max_bytes: usize) -> io::Result<Option<TailScan>> {
+    if max_bytes >= 1024 * 1024 {
+        return Err(io::Error::from(io::ErrorKind::Other));
+    }
+    Ok(Some(TailScan { events: Vec::new(), complete: false }))
+}
+
+fn stub_replay_events_empty(_this: &ContinuityStore, _id: &str) -> io::Result<Vec<Event>> {
+    Ok(Vec::new())
+}
+
+fn created_event(seq: u64) -> Event {
+    Event {
+        id: lit("c"),
+        session_id: lit("t"),
+        timestamp_ms: 0,
+        seq,
+        kind: EventKind::ContinuityCreated {
+            workspace: lit("w"),
+            title: None,
+        },
+    }
+}
+
+// C02: an append reached from a read-only / no-op call is a violation
+fn stub_append_cursor_unreachable(
+    _this: &ContinuityStore,
+    _id: &str,
+    _payload: ProviderCursorUpdatedPayload,
+) -> Result<String, String> {
+    assert!(false, "no-op / read-only capability appended a frame");
+    Ok(String::new())
+}
+
+fn stub_replay_events_err(_this: &ContinuityStore, _id: &str) -> io::Result<Vec<Event>> {
+    Err(io::Error::from(io::ErrorKind::Other))
+}
+
+macro_rules! c04_term {
+    ($name:ident, $scan:path, $call:expr) => {
+        #[kani::proof]
+        #[kani::unwind(8)]
+        #[kani::stub(std::fmt::format, stub_fmt_format)]
+        #[kani::stub(std::hash::RandomState::new, stub_random_state_new)]
+        #[kani::stub(ContinuityStreamCache::scan_tail, $scan)]
+        #[kani::stub(ContinuityStore::replay_events, stub_replay_events_empty)]
+        #[kani::stub(ContinuityStore::append_provider_cursor_updated, stub_append_cursor_unreachable)]
+        #[kani::stub(ContinuityStore::get, stub_get_some)]
+        fn $name() {
+            let store = kani_store();
+            let f: fn(&ContinuityStore) = $call;
+            f(store);
+        }
+    };
+}
+
+c04_term!(c04_term_cursor_status_some, stub_scan_some, |s| {
+    let r = s.provider_cursor_status_v1("t", ProviderCursorStatusV1Request {});
+    kani::cover!(r.is_ok(), "status returned Ok");
+    core::mem::forget(r);
+});
+
+c04_term!(c04_term_cursor_status_none, stub_scan_none, |s| {
+    let r = s.provider_cursor_status_v1("t", ProviderCursorStatusV1Request {});
+    kani::cover!(r.is_ok(), "status returned Ok");
+    core::mem::forget(r);
+});
+c04_term!(c04_term_cursor_status_none_late, stub_scan_none_late, |s| {
+    let r = s.provider_cursor_status_v1("t", ProviderCursorStatusV1Request {});
+    kani::cover!(r.is_ok(), "status returned Ok");
+    core::mem::forget(r);
+});
+
+fn rotate_req() -> ProviderCursorRotateV1Request {
+    ProviderCursorRotateV1Request {
+        provider: None,
+        endpoint: None,
+        model: None,
+        reason: None,
+        actor_id: String::from("u"),
+        origin: String::from("o"),
+    }
+}
+c04_term!(c04_term_cursor_rotate_some, stub_scan_some, |s| {
+    let r = s.provider_cursor_rotate_v1("t", rotate_req());
+    kani::cover!(r.is_ok(), "rotate returned Ok");
+    core::mem::forget(r);
+});
+c04_term!(c04t_term_cursor_rotate_none_late, stub_scan_none_late, |s| {
+    let r = s.provider_cursor_rotate_v1("t", rotate_req());
+    kani::cover!(r.is_ok(), "rotate returned Ok");
+    core::mem::forget(r);
+});
+
+c04_term!(c04_term_selection_status_some, stub_scan_some, |s| {
+    let limit: Option<u32> = if kani::any() { Some(kani::any()) } else { None };
+    let r = s.context_selection_status_v1("t", ContextSelectionStatusV1Request { limit });
+    kani::cover!(r.is_ok(), "selection status returned Ok");
+    core::mem::forget(r);
+});
+c04_term!(c04t_term_selection_status_none_late, stub_scan_none_late, |s| {
+    let r = s.context_selection_status_v1("t", ContextSelectionStatusV1Request { limit: None });
+    kani::cover!(r.is_ok(), "selection status returned Ok");
+    core::mem::forget(r);
+});
+
+// compaction_status_v1: its other callees are answered "nothing known" so that the tail loop is what runs.
+fn stub_cut_points_empty(
+    _this: &ContinuityStore,
+    _id: &str,
+    _req: CompactionCutPointsV1Request,
+) -> Result<CompactionCutPointsV1Response, String> {
+    Ok(CompactionCutPointsV1Response {
+        thread_id: String::new(),
+        stride_messages: 1,
+        message_count: 0,
+        cut_rule_id: String::new(),
+        cut_points: Vec::new(),
+    })
+}
+fn stub_find_inflight_none(_this: &ContinuityStore, _id: &str) -> Option<String> {
+    None
+}
+fn stub_latest_ckpt_none(_this: &ContinuityStreamCache, _id: &str, _seq: u64) -> io::Result<Option<Event>> {
+    Ok(None)
+}
+
+macro_rules! c04_term_status {
+    ($name:ident, $scan:path) => {
+        #[kani::proof]
+        #[kani::unwind(8)]
+        #[kani::stub(std::fmt::format, stub_fmt_format)]
+        #[kani::stub(std::hash::RandomState::new, stub_random_state_new)]
+        #[kani::stub(ContinuityStreamCache::scan_tail, $scan)]
+        #[kani::stub(ContinuityStreamCache::latest_compaction_checkpoint_before_or_at_seq_v1, stub_latest_ckpt_none)]
+        #[kani::stub(ContinuityStore::replay_events, stub_replay_events_empty)]
+        #[kani::stub(ContinuityStore::compaction_cut_points_v1, stub_cut_points_empty)]
+        #[kani::stub(ContinuityStore::find_inflight_compaction_job_id_best_effort_v1, stub_find_inflight_none)]
+        #[kani::stub(ContinuityStore::get, stub_get_some)]
+        fn $name() {
+            let store = kani_store();
+            let stride: Option<u64> = if kani::any() { Some(kani::any()) } else { None };
+            let r = store.compaction_status_v1("t", CompactionStatusV1Request { stride_messages: stride });
+            kani::cover!(r.is_err(), "compaction status reached its truth fallback (empty replay => thread_not_found)");
+            core::mem::forget(r);
+        }
+    };
+}
+c04_term_status!(c04_term_compaction_status_some, stub_scan_some);
+c04_term_status!(c04t_term_compaction_status_none_late, stub_scan_none_late);
+
+#[kani::proof]
+fn c00_setup_probe() {
+    let x: u8 = kani::any();
+    assert!(x as u16 <= 255);
+}
+
+
+
+
